@@ -24,7 +24,7 @@ RULE = (
 
 
 def gen_case(rng, tier):
-    prof = B.default_profile(rng)
+    prof = B.default_profile(rng, tier)
     prof["w_op"] = rng.choice([0, 0, 1])
     prof["views"] = rng.random() < 0.3  # dependencies through subviews of one allocation
     prof["streams"] = rng.random() < 0.15  # streaming regions: XDMA extension kernels on the DM core, snax_alu on the compute core
